@@ -400,9 +400,13 @@ type jEvent struct {
 func (w *world) apply(e jEvent) {
 	switch e.Kind {
 	case "ready":
-		n := &corev1.Node{}
-		if err := w.c.Get(w.ctx, client.ObjectKey{Name: fmt.Sprintf("node-%03d", e.Node)}, n); err != nil {
+		known, ok := w.nodes[e.Node]
+		if !ok {
 			return
+		}
+		n := &corev1.Node{}
+		if err := w.c.Get(w.ctx, client.ObjectKeyFromObject(known), n); err != nil {
+			panic(err)
 		}
 		st := corev1.ConditionFalse
 		if e.Ready {
@@ -645,16 +649,16 @@ func (s *roundState) applyEvent(e jEvent) {
 }
 
 type jOp struct {
-	Op       string   `json:"op"`
-	Method   string   `json:"method,omitempty"`
-	Event    *jEvent  `json:"event,omitempty"`
-	Between  []jEvent `json:"events_during_validation,omitempty"`
-	Cands    []jCand  `json:"candidates,omitempty"`
-	Proposed []int    `json:"proposed,omitempty"`
+	Op       string         `json:"op"`
+	Method   string         `json:"method,omitempty"`
+	Event    *jEvent        `json:"event,omitempty"`
+	Between  []jEvent       `json:"events_during_validation,omitempty"`
+	Cands    []jCand        `json:"candidates,omitempty"`
+	Proposed []int          `json:"proposed,omitempty"`
 	Mapping  map[string]int `json:"impl_mapping,omitempty"`
-	NewQueue []int    `json:"impl_newly_queued"`
-	IDs      []int    `json:"command,omitempty"`
-	OK       bool     `json:"ok,omitempty"`
+	NewQueue []int          `json:"impl_newly_queued"`
+	IDs      []int          `json:"command,omitempty"`
+	OK       bool           `json:"ok,omitempty"`
 }
 
 type caseR struct {
